@@ -11,6 +11,8 @@
 //! All shuttle tasks of one `Runner::run` are coroutines on the calling OS thread, so per-execution
 //! bookkeeping lives in plain `thread_local!`s of that OS thread (one harness worker = one OS thread).
 
+#![allow(dead_code)]
+
 use std::cell::{Cell, RefCell};
 
 use vcommon::Failure;
@@ -300,41 +302,47 @@ pub mod atomic {
 // futex model
 
 pub mod futex {
+    use std::cell::RefCell;
+
     use libc::{c_int, c_long, timespec};
     use shuttle::rand::Rng as _;
 
-    use super::{FUTEX, STATS, atomic::AtomicU32, hooks_active, qalloc, take_spurious};
+    use super::{STATS, atomic::AtomicU32, hooks_active, qalloc, sched_point, take_spurious};
 
+    /// All tasks of an execution run on one OS thread and are switched only at explicit scheduling
+    /// points, so the model needs no lock of its own: "check the value and enqueue" is atomic because
+    /// no scheduling point lies between the two.  Blocking is `shuttle::thread::park` (no guard is
+    /// held while a task is suspended, which matters when shuttle force-unwinds a cut-off execution).
+    #[derive(Default)]
     pub struct Model {
-        st: shuttle::sync::Mutex<State>,
-        cv: shuttle::sync::Condvar,
+        st: RefCell<State>,
     }
 
     #[derive(Default)]
     struct State {
-        /// (address, ticket) of blocked waiters, in arrival order.  Shared-memory objects are modelled
-        /// as one block per object (`vsched::shm`), so the address identifies the futex.
-        waiters: Vec<(usize, u64)>,
+        /// (address, ticket, task) of blocked waiters, in arrival order.  Shared-memory objects are
+        /// modelled as one block per object (`vsched::shm`), so the address identifies the futex.
+        waiters: Vec<(usize, u64, shuttle::thread::Thread)>,
         next: u64,
     }
 
+    // SAFETY: a `Model` is only ever touched from the OS thread that runs the execution.
+    unsafe impl Send for Model {}
+    // SAFETY: as above.
+    unsafe impl Sync for Model {}
+
     impl Model {
         pub fn new() -> Self {
-            Model {
-                st: shuttle::sync::Mutex::new(State::default()),
-                cv: shuttle::sync::Condvar::new(),
-            }
+            Model::default()
         }
     }
 
     fn model() -> std::sync::Arc<Model> {
-        FUTEX.with(|f| f.borrow().clone()).expect("futex model used outside vsched::explore")
+        super::FUTEX.with(|f| f.borrow().clone()).expect("futex model used outside vsched::explore")
     }
 
     /// Number of tasks currently blocked in FUTEX_WAIT (harness-side observation).
     pub fn blocked_now() -> usize {
-        // no scheduling point wanted here: read through the shuttle mutex would add one; keep a
-        // separate counter instead
         super::BLOCKED.with(|b| b.get())
     }
 
@@ -358,13 +366,19 @@ pub mod futex {
     ) -> c_long {
         assert_eq!(nr, libc::SYS_futex, "vsched::futex models SYS_futex only");
         assert!(timeout.is_null(), "vsched::futex models untimed waits only");
-        assert!(hooks_active(), "futex used outside a vsched execution");
+        if !hooks_active() {
+            // Tear-down of an execution that was cut off (step bound, failure): shuttle force-unwinds
+            // the suspended tasks, their destructors run (e.g. a guard unlocking a mutex with
+            // sleepers).  Nothing can be woken or blocked any more.
+            return if op == libc::FUTEX_WAKE { 0 } else { -1 };
+        }
         let addr = uaddr as usize;
+        // entering the kernel is a scheduling point
+        sched_point();
         qalloc::untracked(|| {
             let m = model();
             match op {
                 libc::FUTEX_WAIT => {
-                    let mut st = m.st.lock().unwrap();
                     STATS.with(|s| s.borrow_mut().futex_wait_calls += 1);
                     // SAFETY: caller guarantees `uaddr` is live.
                     let cur = unsafe { (*uaddr).peek() };
@@ -377,22 +391,28 @@ pub mod futex {
                         STATS.with(|s| s.borrow_mut().futex_wait_spurious += 1);
                         return 0;
                     }
-                    let ticket = st.next;
-                    st.next += 1;
-                    st.waiters.push((addr, ticket));
+                    let ticket = {
+                        let mut st = m.st.borrow_mut();
+                        let t = st.next;
+                        st.next += 1;
+                        st.waiters.push((addr, t, shuttle::thread::current()));
+                        t
+                    };
                     STATS.with(|s| s.borrow_mut().futex_wait_blocked += 1);
                     super::BLOCKED.with(|b| b.set(b.get() + 1));
-                    while st.waiters.iter().any(|w| w.1 == ticket) {
-                        st = m.cv.wait(st).unwrap();
+                    // `park` may return spuriously or because of a stale token: only the removal of
+                    // the ticket by FUTEX_WAKE ends the wait
+                    while m.st.borrow().waiters.iter().any(|w| w.1 == ticket) {
+                        shuttle::thread::park();
                     }
                     super::BLOCKED.with(|b| b.set(b.get() - 1));
                     0
                 }
                 libc::FUTEX_WAKE => {
-                    let mut st = m.st.lock().unwrap();
                     STATS.with(|s| s.borrow_mut().futex_wake_calls += 1);
-                    let mut woke = 0;
-                    while woke < val {
+                    let mut woken: Vec<shuttle::thread::Thread> = Vec::new();
+                    while (woken.len() as u32) < val {
+                        let mut st = m.st.borrow_mut();
                         let cands: Vec<usize> =
                             st.waiters.iter().enumerate().filter(|(_, w)| w.0 == addr).map(|(i, _)| i).collect();
                         if cands.is_empty() {
@@ -403,14 +423,17 @@ pub mod futex {
                         } else {
                             shuttle::rand::thread_rng().gen_range(0..cands.len())
                         };
-                        st.waiters.remove(cands[pick]);
-                        woke += 1;
+                        let w = st.waiters.remove(cands[pick]);
+                        woken.push(w.2);
                     }
-                    if woke > 0 {
-                        STATS.with(|s| s.borrow_mut().futex_wake_woke += u64::from(woke));
-                        m.cv.notify_all();
+                    let n = woken.len();
+                    if n > 0 {
+                        STATS.with(|s| s.borrow_mut().futex_wake_woke += n as u64);
                     }
-                    c_long::from(woke)
+                    for t in woken {
+                        t.unpark();
+                    }
+                    n as c_long
                 }
                 other => panic!("vsched::futex: unmodelled futex op {other}"),
             }
@@ -688,7 +711,13 @@ pub mod sync {
     impl<T> Drop for MutexGuard<'_, T> {
         fn drop(&mut self) {
             let g = self.0.take();
-            qalloc::untracked(|| drop(g));
+            if std::thread::panicking() {
+                // Forced unwind of a cut-off execution (or a failing task): releasing would re-enter
+                // the scheduler while shuttle tears the execution down.  The execution is over.
+                std::mem::forget(g);
+            } else {
+                qalloc::untracked(|| drop(g));
+            }
         }
     }
 }
@@ -989,6 +1018,10 @@ pub struct RunStats {
     pub exec: ExecStats,
 }
 
+/// Process-wide totals over all cases (for the evidence file and the inconclusive verdict).
+pub static TOTAL_SCHEDULES: std::sync::atomic::AtomicU64 = std::sync::atomic::AtomicU64::new(0);
+pub static TOTAL_STEP_BOUND: std::sync::atomic::AtomicU64 = std::sync::atomic::AtomicU64::new(0);
+
 thread_local! {
     static STARTED: Cell<u64> = const { Cell::new(0) };
     static COMPLETED: Cell<u64> = const { Cell::new(0) };
@@ -1018,7 +1051,9 @@ where
 
     let mut config = shuttle::Config::new();
     config.stack_size = cfg.stack;
-    config.max_steps = shuttle::MaxSteps::ContinueAfter(cfg.max_steps);
+    // VH_MAX_STEPS: development aid to exercise the step-bound path (never set by bin/check)
+    let max_steps = std::env::var("VH_MAX_STEPS").ok().and_then(|s| s.parse().ok()).unwrap_or(cfg.max_steps);
+    config.max_steps = shuttle::MaxSteps::ContinueAfter(max_steps);
     config.failure_persistence = shuttle::FailurePersistence::None;
     config.silence_warnings = true;
 
@@ -1090,6 +1125,8 @@ where
             if step_bound > 0 {
                 qalloc::abandon();
             }
+            TOTAL_SCHEDULES.fetch_add(n as u64, std::sync::atomic::Ordering::Relaxed);
+            TOTAL_STEP_BOUND.fetch_add(step_bound, std::sync::atomic::Ordering::Relaxed);
             Ok(RunStats {
                 schedules: n as u64,
                 completed,
